@@ -329,7 +329,7 @@ CHECKS = {
         "level_note": "Only single failures (one NULL per run). The synchronisation part (temporary PDU stores, shadow tables inside rtr_sync) is covered by the conversation stage.",
         "stages": [{"driver": ALLOCFAIL,
                     "quick": {"procs": 8, "rc": (25, 50)},
-                    "thorough": {"procs": 16, "rc": (4000, 100), "timeout": 7200}}],
+                    "thorough": {"procs": 16, "rc": (400, 80), "timeout": 7200}}],
     },
     "C06": {
         "level": "exploration",
@@ -399,7 +399,7 @@ CHECKS["C17"]["exhaustive_note"] = "stage intervals: the 9x9x9 grid of boundary 
 CHECKS["C17"]["rule"] = ("Stage intervals: rtr_init and rtr_mgr_init are called with every triple of the 9-value boundary grid per interval (exhaustive, 729 triples) and with random triples: error iff some value is outside its RFC 8210 range, values stored unchanged otherwise. Stage conv: "
                          + CHECKS["C17"]["rule"])
 # C18 (b): allocation failures during synchronisations
-CHECKS["C18"]["stages"].append(_conv_stage((4, 40), (400, 100), ["--mode", "alloc"], procs_q=8))
+CHECKS["C18"]["stages"].append(_conv_stage((4, 40), (40, 80), ["--mode", "alloc"], procs_q=8))
 CHECKS["C18"]["stages"][-1]["quick"]["args"] = ["--maxk", "1200"]
 CHECKS["C18"]["engine"] = "rapidcheck + per-fault re-execution + convsim"
 CHECKS["C18"]["rule"] += (" Stage conv: for generated conversations (see C03) run 0 counts the allocations the library makes while synchronising (temporary PDU stores incl. >100 PDU payloads, shadow tables, hash-table growth, undo paths); "
